@@ -69,6 +69,65 @@ theorem C08_booking_listed_iff_share_instant (booked : μ → Option Period) (b 
   · intro hb
     simp [bookingListed, hb, periodsIntersect]
 
+/-- The whole request: `PullBookings(booking_intersects, read_mask, updates_only)` against `ListBookings` with
+the same request, for every request period (or none), read-mask projection, BOTH values of `updates_only`,
+every way `booked` is read off a booking, contents and history of writes (re-entrant deletes included).
+The stream (`bookingPullStream`: the masked seed - none with `updates_only` - then every published change
+through include and mask) is a well-formed edit history of the client's base line (`bookingBase`: empty, or
+with `updates_only` the `ListBookings` answer taken at subscribe time) and folds to `ListBookings` after the
+writes.  Well-formed means: an ADD only for a booking the client does not hold, an UPDATE / REMOVE only for
+one it holds, carrying as old value exactly the value it holds - so a booking moved out of the period
+arrives as a REMOVE, one moved in as an ADD, also for a subscriber that got no seed. -/
+theorem C08_booking_request_matches_list (booked : μ → Option Period) (req : BookingReq μ)
+    (items : List (ι × μ)) (hn : NodupKeys items) (order : List (ι × μ))
+    (hperm : order.Perm (itemSlice (bookingInclude booked req.intersects) items)) (t t' : Nat)
+    (as : List (Act ι μ)) :
+    let p : Option (Pred ι μ) := bookingInclude booked req.intersects
+    let r := runActs t items as
+    let stream := bookingPullStream booked req t' order r.2
+    let base := bookingBase booked req items
+    WFHist base stream ∧
+    fold stream base = projView req.proj (viewOf (itemSlice p r.1)) := by
+  obtain ⟨q, proj, uo⟩ := req
+  cases uo with
+  | false =>
+    have h := C08_pull_matches_list_reentrant (bookingInclude booked q) proj items hn order hperm t t' as
+    simpa [bookingPullStream, bookingBase] using ⟨h.1, h.2.1⟩
+  | true =>
+    have hops := runActs_spec t hn as
+    have hp := pullEvent_hist (bookingInclude booked q) proj (viewOf items) _ hops.2.1
+    have h0 := viewOf_itemSlice (bookingInclude booked q) items hn
+    have h1 := viewOf_itemSlice (bookingInclude booked q) (runActs t items as).1 hops.1
+    simp only [bookingPullStream, bookingBase, if_true, List.nil_append]
+    rw [h0, h1, ← hops.2.2]
+    exact hp
+
+/-- `PeriodsIntersect` treats its arguments alike for ALL periods - missing, unbounded, empty (`[4,4)`) or
+inverted (`[6,3)`) ones included: whichever of (booked period, request period) a handler passes first, the
+include predicates of `ListBookings` and `PullBookings` are the same function. -/
+theorem C08_booking_argument_order_irrelevant (a b : Option Period) :
+    periodsIntersect a b = periodsIntersect b a := by
+  cases a <;> cases b <;> simp [periodsIntersect, Bool.and_comm]
+
+omit [DecidableEq μ] in
+/-- "Listed" for ANY two periods with normalised timestamps, proper or not: the booked period starts before
+the request period ends and the request period starts before the booked period ends (an absent bound
+satisfies its comparison).  In particular a zero-length booking `[t,t)` is listed exactly when `t` lies
+strictly inside the request period - `pkg/time` compares the four bounds pairwise and never asks whether
+either period holds an instant - and `ListBookings` and `PullBookings` agree on it
+(`C08_booking_request_matches_list`). -/
+theorem C08_booking_listed_any_period (booked : μ → Option Period) (b : μ) (bp qp : Period)
+    (hb : booked b = some bp)
+    (hbn : ScVerif.C18.optNormal bp.start ∧ ScVerif.C18.optNormal bp.stop)
+    (hqn : ScVerif.C18.optNormal qp.start ∧ ScVerif.C18.optNormal qp.stop) :
+    bookingListed booked (some qp) b = true ↔
+      (ScVerif.C18.bLt bp.lo qp.hi ∧ ScVerif.C18.bLt qp.lo bp.hi) := by
+  simp only [bookingListed, hb]
+  have h1 := ScVerif.C18.lower_lt_upper bp qp hbn.1 hqn.2
+  have h2 := ScVerif.C18.lower_lt_upper qp bp hqn.1 hbn.2
+  simp only [periodsIntersect, Bool.and_eq_true, decide_eq_true_eq]
+  rw [h1, h2]
+
 /-! ### non-vacuity -/
 
 /-- [2,4) and [3,5) intersect, [2,4) and [4,6) do not (the doc comment of `PeriodsIntersect`) -/
@@ -76,5 +135,27 @@ example :
     (bookingListed (μ := Option Period) id (some ⟨some ⟨3, 0⟩, some ⟨5, 0⟩⟩) (some ⟨some ⟨2, 0⟩, some ⟨4, 0⟩⟩),
      bookingListed (μ := Option Period) id (some ⟨some ⟨4, 0⟩, some ⟨6, 0⟩⟩) (some ⟨some ⟨2, 0⟩, some ⟨4, 0⟩⟩),
      bookingListed (μ := Option Period) id (some ⟨none, none⟩) none) = (true, false, false) := by decide
+
+section examples
+private def per (a b : Int) : Option Period := some ⟨some ⟨a, 0⟩, some ⟨b, 0⟩⟩
+private def reqUO : BookingReq (Option Period) := ⟨some ⟨some ⟨3, 0⟩, some ⟨6, 0⟩⟩, id, true⟩
+
+/-- updates_only + booking_intersects `[3,6)`: booking 1 moves out of the period (REMOVE carrying the value
+the client holds), booking 2 moves in (ADD), booking 3 stays outside (nothing) -/
+example :
+    ((bookingPullStream (ι := Nat) id reqUO 0 []
+        (runActs 0 [(1, per 4 5), (2, per 7 9), (3, per 0 1)]
+          [.op (.upsert 1 (per 7 9)), .op (.upsert 2 (per 5 8)), .op (.upsert 3 (per 1 2))]).2).map
+      (fun c => (c.id, c.kind, c.old, c.new)))
+      = [(1, .remove, some (per 4 5), none), (2, .add, none, some (per 5 8))] := by
+  decide
+
+/-- a zero-length booking `[4,4)` strictly inside the request period `[3,6)` is listed, one on its border
+(`[3,3)`, `[6,6)`) is not; an inverted `[5,4)` is, `[7,2)` is not -/
+example :
+    ([per 4 4, per 3 3, per 6 6, per 5 4, per 7 2].map
+      (bookingListed (μ := Option Period) id (some ⟨some ⟨3, 0⟩, some ⟨6, 0⟩⟩))) = [true, false, false, true, false] := by
+  decide
+end examples
 
 end ScVerif.C08
